@@ -84,10 +84,101 @@ fn tap(h: &mut Vec<HEv>, k: u16, hold: u32, after: u32) {
     }
 }
 
+/// Family (6), aimed at keyberon/src/layout.rs `do_action`: an output chord (`MultipleKeyCodes`,
+/// e.g. `S-1`) pressed while a one-shot key is active (the repeat buffer is rebuilt from the one-shot
+/// keys' codes plus the chord's), `Repeat` (`rpt-any`, which plays that buffer back), and
+/// `OneShotIgnoreEventsTicks` (`one-shot-pause-processing`: presses inside the window neither
+/// consume nor end the one-shot).
+/// `(defsrc a b c d e f g)`: a, b one-shot keys (key / output chord), c = S-1, d plain, e = rpt-any,
+/// f = (one-shot-pause-processing P), g = (multi (one-shot-pause-processing P) y).
+fn chord_repeat_pause(r: &mut Rng, thorough: bool, lines: &mut Vec<String>) {
+    let ks: Vec<u16> = ["a", "b", "c", "d", "e", "f", "g"].iter().map(|k| code(k)).collect();
+    let (ka, kb, kc, kd, ke, kf, kg) = (ks[0], ks[1], ks[2], ks[3], ks[4], ks[5], ks[6]);
+    for variant in 0..4 {
+        for (ci, (t, p)) in [(10u32, 3u32), (500, 20), (10, 20)].into_iter().enumerate() {
+            for red in [if (variant + ci) % 2 == 0 { None } else { Some(0u16) }] {
+                let mut cfg = String::from("(defcfg");
+                if let Some(d) = red {
+                    cfg.push_str(&format!(" rapid-event-delay {d}"));
+                }
+                let v = VARIANT[variant];
+                cfg.push_str(&format!(
+                    ")\n(defsrc a b c d e f g)\n(deflayer l0 ({v} {t} lsft) ({v} {t} C-lalt) S-1 d rpt-any (one-shot-pause-processing {p}) (multi (one-shot-pause-processing {p}) y))\n"
+                ));
+                // one-shot, then the chord key / the plain key, then rpt-any
+                for os in [ka, kb] {
+                    for target in [kc, kd] {
+                        for g1 in [0u32, 1, t - 1] {
+                            for hold in [0u32, 2] {
+                                let mut h = vec![];
+                                tap(&mut h, os, 1, g1);
+                                tap(&mut h, target, hold, 3);
+                                tap(&mut h, ke, 1, 2);
+                                tap(&mut h, ke, 1, 2);
+                                h.push(HEv::Tick(t + 20));
+                                lines.push(mk_line("LAY", false, &cfg, &h));
+                            }
+                        }
+                    }
+                    // both one-shot keys stacked, chord key while both are active, repeat while the
+                    // second chord key press is still down
+                    let mut h = vec![];
+                    tap(&mut h, ka, 1, 1);
+                    tap(&mut h, kb, 1, 1);
+                    h.push(HEv::Press(0, kc));
+                    h.push(HEv::Tick(2));
+                    tap(&mut h, ke, 1, 1);
+                    h.push(HEv::Release(0, kc));
+                    h.push(HEv::Tick(2));
+                    tap(&mut h, os, 1, 1);
+                    tap(&mut h, ke, 1, 1);
+                    h.push(HEv::Tick(t + 20));
+                    lines.push(mk_line("LAY", false, &cfg, &h));
+                    // one-shot, pause, a key inside / on the edge of / after the pause window, a second key
+                    for pk in [kf, kg] {
+                        for g in [0u32, 1, p - 1, p, p + 1] {
+                            for target in [kc, kd] {
+                                let mut h = vec![];
+                                tap(&mut h, os, 1, 1);
+                                tap(&mut h, pk, 1, g);
+                                tap(&mut h, target, 1, 2);
+                                tap(&mut h, kd, 1, 2);
+                                tap(&mut h, ke, 1, 2);
+                                h.push(HEv::Tick(t + 20));
+                                lines.push(mk_line("LAY", false, &cfg, &h));
+                            }
+                        }
+                    }
+                }
+                // the pause key pressed BEFORE the one-shot key (the window is armed although no
+                // one-shot is active yet; it only counts down while one is)
+                let mut h = vec![];
+                tap(&mut h, kf, 1, 1);
+                tap(&mut h, ka, 1, 1);
+                tap(&mut h, kd, 1, p + 1);
+                tap(&mut h, kd, 1, 2);
+                h.push(HEv::Tick(t + 20));
+                lines.push(mk_line("LAY", false, &cfg, &h));
+                for _ in 0..(if thorough { 150 } else { 8 }) {
+                    let n_ev = r.range(3, 16) as usize;
+                    let h = consistent_history(r, &ks, n_ev, &[0, 1, 1, 2, p - 1, p, p + 1, t - 1, t], t + 20);
+                    lines.push(mk_line("LAY", false, &cfg, &h));
+                }
+            }
+        }
+    }
+}
+
 pub fn gen(tier: &str, seed: u64) -> Vec<String> {
     let mut r = Rng::new(seed ^ 0xC06);
     let thorough = tier == "thorough";
     let mut lines = vec![];
+    if tier == "cov" || tier == "covt" {
+        // only the families that were added to reach otherwise unexecuted code (debugging aid;
+        // "covt" = their thorough-tier size)
+        chord_repeat_pause(&mut r, tier == "covt", &mut lines);
+        return lines;
+    }
     let (ka, kb, kc, kd, ke) = (code("a"), code("b"), code("c"), code("d"), code("e"));
     let ts = [3u32, 10, 500];
     let reds = [None, Some(0u16), Some(1)];
@@ -324,5 +415,7 @@ pub fn gen(tier: &str, seed: u64) -> Vec<String> {
         let h = consistent_history(&mut r, &keys, n_ev, &[0, 1, 1, 2, 3], t + 620);
         lines.push(mk_line("LAY", false, &cfg, &h));
     }
+    // (6) output chords and rpt-any under an active one-shot; one-shot-pause-processing
+    chord_repeat_pause(&mut r, thorough, &mut lines);
     lines
 }
